@@ -12,9 +12,10 @@ static mcx::Report R;
 static inline size_t IDX(bool yaxis, unsigned n, unsigned row, unsigned pos) { return yaxis ? (size_t)row * n + pos : (size_t)pos * n + row; }
 
 static void part_whole(const std::vector<unsigned>& ns, const std::vector<unsigned>& nbs) {
-    for (unsigned n : ns) for (unsigned nb : nbs) for (unsigned it = 1; it <= 4; it++) for (int yaxis = 0; yaxis < 2; yaxis++) for (int mode = 0; mode < 2; mode++)
+    for (unsigned n : ns) for (unsigned nb : nbs) for (unsigned it = 1; it <= 4; it++) for (int yaxis = 0; yaxis < 2; yaxis++) for (int mode = 0; mode < 3; mode++)
     for (int k = -(int)(n - 1); k <= (int)(n - 1); k++) {
-        std::string kase = mcx::Desc()("part", "whole")("n", n)("nb", nb)("it", it)("axis", yaxis ? "y" : "x")("mode", mode ? "mixed" : "uniform")("k", k).str();
+        if (mode == 2 && n > 17) continue;     // mode 2: whole-cell rows between rows with a fractional displacement, in one field
+        std::string kase = mcx::Desc()("part", "whole")("n", n)("nb", nb)("it", it)("axis", yaxis ? "y" : "x")("mode", mode == 2 ? "between-fractional-rows" : mode ? "mixed" : "uniform")("k", k).str();
         if (!R.mine(kase)) continue;
         if (R.out_of_time()) { R.not_completed = kase; return; }
         set_size(n, nb);
@@ -31,12 +32,13 @@ static void part_whole(const std::vector<unsigned>& ns, const std::vector<unsign
         // uniform: every row displaced by k; mixed: row r displaced by k, k-1, k+1, ... (all whole, clipped to the same range);
         // y-kicks carry one field per bunch (bunch b: displaced by one cell less per bunch), x-kicks share the field of bunch 0
         std::vector<float> off((size_t)n * nb); std::vector<int> krall((size_t)n * nb);
-        for (unsigned b = 0; b < nb; b++) for (unsigned r = 0; r < n; r++) { int kk = (mode ? k + (int)(r % 3) - 1 : k) - (yaxis ? (int)b : 0); kk = std::max(-(int)(n - 1), std::min((int)n - 1, kk)); krall[b * n + r] = kk; off[b * n + r] = (float)kk; }
+        for (unsigned b = 0; b < nb; b++) for (unsigned r = 0; r < n; r++) { int kk = (mode ? k + (int)(r % 3) - 1 : k) - (yaxis ? (int)b : 0); kk = std::max(-(int)(n - 1), std::min((int)n - 1, kk)); krall[b * n + r] = kk; off[b * n + r] = (float)kk + ((mode == 2 && r % 2 == 1) ? (r % 4 == 1 ? 0.375f : -0.625f) : 0.f); }
         km.swapOffset(off); km.apply();
         R.eval(kase, mcx::fnv(out->getData(), 4 * (size_t)n * n * nb, mcx::fnvs(kase)), k == 0 && !mode);
         for (unsigned b = 0; b < nb; b++) {
         const float* o = out->getData() + (size_t)b * n * n; const float* d = dall.data() + (size_t)b * n * n; const int* kr = krall.data() + (size_t)b * n;
         for (unsigned r = 0; r < n; r++) {
+            if (mode == 2 && r % 2 == 1) continue;      // (the fractional rows are the polynomial part's subject)
             size_t bad = 0; std::string first;
             for (unsigned x = 0; x < n; x++) {
                 int src = (int)x + kr[r];
